@@ -14,7 +14,7 @@ import (
 
 func init() {
 	modes["C09"] = func(res *lp.Result) { runInflight(res, "C09"); runInflightConcurrent(res); runInflightConnection(res) }
-	modes["C10"] = func(res *lp.Result) { runInflight(res, "C10"); runRoutingConnection(res) }
+	modes["C10"] = func(res *lp.Result) { runInflight(res, "C10"); runRoutingConnection(res); runRoutingRawPeer(res) }
 }
 
 type infOp struct {
@@ -56,6 +56,7 @@ func runHistory(n, pending int, ops []infOp, res *lp.Result, prop string) []stri
 	managed := map[int]bool{}     // handle -> managed
 	expectPerHandle := map[int][]int{}
 	gotPerHandle := map[int][]int{}
+	overflowed := map[int]bool{}
 	closed := false
 	managedOnly := true
 	trace := func(i int) string {
@@ -110,6 +111,13 @@ func runHistory(n, pending int, ops []infOp, res *lp.Result, prop string) []stri
 			err := h.Deliver(f)
 			if err != nil {
 				outs = append(outs, "err")
+				if known && len(expectPerHandle[hd])-len(gotPerHandle[hd]) >= pending {
+					overflowed[hd] = true // the request's channel was full: the request is failed and closed from now on
+				}
+				if known && !closed && prop == "C10" && !overflowed[hd] && len(expectPerHandle[hd])-len(gotPerHandle[hd]) < pending {
+					// the request is registered, unanswered and its channel has room: the page must reach it
+					viol(i, fmt.Sprintf("a page for stream id %d, whose request still awaits its final response, is not delivered: %s", o.id, firstWords(err.Error())))
+				}
 			} else {
 				outs = append(outs, "delivered")
 				if known {
